@@ -32,7 +32,7 @@ ASSUMPTIONS = [
     "reference wire walker and name decoder; RDATA decoded with dns.rdata.from_wire (C02)",
     "maximality of the kept prefix is not demanded; TooBig under prefer_truncation is legitimate only when header+question-less OPT/padding/TSIG alone exceed the limit",
 ]
-REQUIRED = ["mon.beyond_64k", "mon.direct_renderer_reservation_rounds", "mon.first_rendering_with_tsig_placeholder", "mon.bulky_opt_record", "mon.direct_renderer", "mon.padding_option_already_present", "mon.render_under_limit", "mon.prefix_check", "mon.tc_rule", "mon.padding_multiple", "mon.toobig_legitimacy", "mon.truncated_outcomes"]
+REQUIRED = ["mon.response_to_advertised_payload", "mon.direct_renderer_add_tsig", "mon.beyond_64k", "mon.direct_renderer_reservation_rounds", "mon.first_rendering_with_tsig_placeholder", "mon.bulky_opt_record", "mon.direct_renderer", "mon.padding_option_already_present", "mon.render_under_limit", "mon.prefix_check", "mon.tc_rule", "mon.padding_multiple", "mon.toobig_legitimacy", "mon.truncated_outcomes"]
 BUDGET = {"quick": 32.0, "thorough": 480.0}
 
 
@@ -136,8 +136,20 @@ def direct_renderer_drill(ctx, rng, m, L):
                     kept[si] += len(rr)
                 except dns.exception.TooBig:
                     refused += 1
+        signed = False
+        if rng.random() < 0.4:
+            # sign what is there with add_tsig, as the class documents: it fits within the limit or it is the too-big error
+            r.write_header()
+            try:
+                r.add_tsig(dns.name.from_text("drill-key.example."), b"0123456789abcdef", 300, m.id, 0, b"", b"", rng.choice((dns.tsig.HMAC_SHA256, dns.tsig.HMAC_SHA512, dns.tsig.HMAC_MD5)))
+                signed = True
+                kept[3] += 1
+            except dns.exception.TooBig:
+                refused += 1
         r.write_header()
         w = r.get_wire()
+        if signed:
+            ctx.count("mon.direct_renderer_add_tsig")
     except Exception as e:
         ctx.violation("direct-renderer-raised:" + core.exc_sig(e), repr(e), case)
         return
@@ -198,6 +210,39 @@ def beyond_64k_drill(ctx, rng):
             except Exception as e:
                 ctx.violation("render-foreign:prepend_length:" + core.exc_sig(e), f"L={L}: {e!r}", case)
                 return
+
+
+def advertised_payload_drill(ctx, rng):
+    """make_response(query): rendered without an explicit limit, the response respects the payload size the CLIENT advertised
+    (never less than 512), not the one this side advertises"""
+    ctx.count("evaluations")
+    ctx.count("mon.response_to_advertised_payload")
+    client = rng.choice((512, 600, 1232, 1400, 4096))
+    ours = rng.choice((1232, 4096, 8192))
+    q = dns.message.make_query("client.example.", "TXT", use_edns=0, payload=client)
+    q = dns.message.from_wire(q.to_wire())
+    pad = rng.choice((0, 0, 128))
+    try:
+        r = dns.message.make_response(q, our_payload=ours, pad=pad)
+    except TypeError:
+        r = dns.message.make_response(q, our_payload=ours)
+    n = rng.choice((3, 8, 30, 80))
+    for i in range(n):
+        r.find_rrset(r.answer, dns.name.from_text(f"r{i}.client.example."), 1, 16, create=True).add(dns.rdata.from_text("IN", "TXT", '"' + "y" * 90 + '"'), 60)
+    case = {"kind": "advertised-payload", "client_payload": client, "our_payload": ours, "records": n, "pad": pad}
+    for prefer in (True, False):
+        try:
+            w = r.to_wire(prefer_truncation=prefer, want_shuffle=False)
+        except dns.exception.TooBig:
+            ctx.seen(("advertised", "toobig", prefer))
+            continue
+        except Exception as e:
+            ctx.violation("render-foreign:" + core.exc_sig(e), repr(e), case)
+            return
+        ctx.seen(("advertised", "ok", prefer, len(w) > 512))
+        if len(w) > max(512, client):
+            ctx.violation(f"response-exceeds-the-payload-size-the-client-advertised:{'pad' if pad else 'nopad'}", f"client payload {client}, ours {ours}: rendered {len(w)} octets without an explicit limit (prefer_truncation={prefer})", case)
+            return
 
 
 def check_limit(ctx, spy, m, info, key, L, prefer, full_len, min_len, want_sets, collide):
@@ -322,6 +367,8 @@ def run(spec, ctx):
     try:
         for _ in range(2):
             beyond_64k_drill(ctx, rng)
+        for _ in range(30):
+            advertised_payload_drill(ctx, rng)
         for i in range(spec["n"]):
             if ctx.expired(1.0):
                 break
